@@ -109,13 +109,21 @@ for clsA, kwA, clsB, kwB in job['scenarios']:
     n = len(sa['lines'])
     pts = list(range(n))
     if len(pts) > job['max_points']:
-        # keep every line of the modules that hold process-wide tables, sample the rest
-        hot = [i for i, (f, _) in enumerate(sa['lines']) if f.startswith('xsd/')]
+        # always pre-empt at the first occurrences of every line of a function that stores to a class-level attribute
+        # (ranges read off the code by tr/code.py), then the modules that hold process-wide tables, then a sample of the rest
+        must = []
+        seen_ln = {}
+        for i, (f, ln) in enumerate(sa['lines']):
+            if any(f == rf and a <= ln <= b for rf, a, b in job.get('ranges', [])):
+                seen_ln[(f, ln)] = seen_ln.get((f, ln), 0) + 1
+                if seen_ln[(f, ln)] <= 3:
+                    must.append(i)
+        hot = [i for i, (f, _) in enumerate(sa['lines']) if f.startswith('xsd/') and i not in set(must)]
         rest = [i for i in pts if i not in set(hot)]
         if len(hot) > job['max_points']:
             step = len(hot) / job['max_points']
             hot = [hot[int(j * step)] for j in range(job['max_points'])]
-        pts = sorted(set(hot + rng.sample(rest, max(0, min(len(rest), job['max_points'] - len(hot))))))
+        pts = sorted(set(must + hot + rng.sample(rest, max(0, min(len(rest), job['max_points'] - len(hot))))))
     report['scenarios'].append({'A': clsA, 'B': clsB, 'lines': n, 'points': len(pts)})
     for k in pts:
         r = in_child(lambda: schedule(clsA, kwA, clsB, kwB, k))
